@@ -129,4 +129,18 @@ CLAIMS['C14'] = {
   'text': 'Decides for all four types: the (uplo, trans, diag) -> dense-kernel dispatch table and sweep direction of sp_?trsv; vector lengths, start offsets, beta scaling extent and alpha/beta short-cuts of sp_?gemv for every documented spelling; which spellings the screening accepts; that each kernel can write only its output operand (sound over-approximation); permutation roles and kernel order of ?gstrs. The computed values themselves are not decided.',
   'note': 'Known findings: sp_?trsv rejects the documented lower-case spellings, sp_?gemv rejects t and c. One defect (vector lengths for TRANS = n in the real variants) was repaired by a fix: commit. The rule for sp_?gemv anchors on the locals lenx/leny/kx/ky (exit 2 if they vanish).',
 }
+CLAIMS['C07'] = {
+  'level': 'other',
+  'technique': 'static analysis: forward staleness dataflow over the CFG with a may-expand call summary (R5), guard-shape rules on expansion sites, structural rules on the expander and the in-place shift, sibling agreement (R9)',
+  'design_ref': 'DESIGN.md 4 R5, 5 C07',
+  'text': 'Decides, for every routine that can reach an expansion and all four types: no local alias of a growable array (or of an array laid out behind it in a caller workspace) is used after a possible move without being re-read; every expansion is driven by the capacity it enlarges with the right comparison and is repeated when several elements are needed; ?expand shifts every later array and its bookkeeping by the same amount, copies with the right element width under malloc, and user_bcopy moves every byte. Each is a necessary condition of bit-for-bit independence from the storage mode / fill estimate. Bit equality itself is not decided.',
+  'note': 'Layout order lusup < ucol < lsub < usub is read off ?expand and encoded in the rule.',
+}
+CLAIMS['C08'] = {
+  'level': 'other',
+  'technique': 'static analysis: who-may-write rule, linear-form invariant dataflow over the allocator routines, guard/NULL/release rules (R6), failure-propagation rules (R5), flag-partitioned query oracle on the drivers (R3), sibling agreement (R9)',
+  'design_ref': 'DESIGN.md 4 R5 R6, 5 C08',
+  'text': 'Decides: only the allocator touches the workspace bookkeeping; used = top1 + size - top2 is an inductive invariant of every allocator routine (so the fullness test is exact and nothing is granted outside [work, work+lwork)); NULL returns are honoured; releases match successful acquisitions; every expansion failure is returned at once as a non-zero byte count up to info; which arguments an lwork = -1 query writes. Not decided: subscript ranges inside numerical kernels.',
+  'note': 'One defect was repaired by a fix: commit (?LUMemInit underflow of a too small workspace, replayed concretely). Known findings: the size query of the eight expert drivers has side effects (recorded). Positive-control fixture for the zero-count rules.',
+}
 NOT_APPLICABLE = {}
